@@ -337,18 +337,23 @@ pub fn check07(s: &Scenario) -> CheckResult {
 fn log_uniform(lo: f64, hi: f64) -> BoxedStrategy<f64> {
     (lo.ln()..=hi.ln()).prop_map(|x| x.exp()).boxed()
 }
+/// end (and start) derivatives: zero, moderate, or non-zero but tiny (below f32::EPSILON, down to subnormal) - "lowest non-zero
+/// derivative" means non-zero, not "noticeably large"
+fn deriv() -> BoxedStrategy<f32> {
+    prop_oneof![6 => Just(0.0f32), 3 => gen::moderate(), 1 => proptest::sample::select(vec![1.0e-8f32, -1.0e-8, 5.0e-8, -1.0e-7, 1.1e-7, 1.0e-20, -1.0e-30, f32::MIN_POSITIVE, 1.0e-40, -1.0e-44])].boxed()
+}
 fn speed_fraction() -> BoxedStrategy<f64> {
     prop_oneof![3 => Just(0.0f64), 1 => Just(1.0f64), 1 => Just(-1.0f64), 6 => -1.0f64..=1.0].boxed()
 }
 /// profiles built to be accepted: displacement = direction * (ramp distance * (1 + margin) + cruise)
 fn accepted_profile() -> BoxedStrategy<Profile> {
-    (log_uniform(1e-2, 1e3), 0.0f64..=1.0, speed_fraction(), speed_fraction(), any::<bool>(), -1000.0f64..1000.0, prop_oneof![1 => Just(0.0f64), 4 => 0.0f64..=1.0], prop_oneof![2 => Just(0.0f32), 1 => gen::moderate()], prop_oneof![3 => Just(0.0f32), 1 => gen::moderate()])
-        .prop_map(|(a, vf, f0, f1, neg, p0, cruise, a0, a1)| {
+    (log_uniform(1e-2, 1e3), 0.0f64..=1.0, speed_fraction(), speed_fraction(), any::<bool>(), -1000.0f64..1000.0, prop_oneof![1 => Just(0.0f64), 4 => 0.0f64..=1.0], deriv(), deriv(), proptest::option::weighted(0.04, proptest::sample::select(vec![1.0e-8f32, -5.0e-8, 1.0e-7, 1.0e-30, -1.0e-40])))
+        .prop_map(|(a, vf, f0, f1, neg, p0, cruise, a0, a1, tiny_v1)| {
             let vmax_allowed = (2.0 * a * 3.5e3f64).sqrt().min(1e3);
             let v = (1e-2f64.ln() + vf * (vmax_allowed.max(1.0e-2).ln() - 1e-2f64.ln())).exp();
             let (v, a32) = (v as f32, a as f32);
             let dir = if neg { -1.0f64 } else { 1.0 };
-            let (v0, v1) = ((v as f64 * f0) as f32, (v as f64 * f1) as f32);
+            let (v0, v1) = ((v as f64 * f0) as f32, tiny_v1.unwrap_or((v as f64 * f1) as f32));
             let p = Profile { start: [p0 as f32, v0, a0], end: [0.0, v1, a1], max_vel: v, max_acc: a32 };
             let ramp = ramp_distance(&p);
             let room = (9.0e3 - ramp - p0.abs()).max(0.0);
@@ -377,7 +382,7 @@ fn edge_profile() -> BoxedStrategy<Profile> {
 /// end/start accelerations moderate, limits 1e-2..1e3 in magnitude, placement fractions in [0,1), a few extra query times
 pub fn scenario_valid(s: &Scenario) -> bool {
     let p = &s.prof;
-    let st = |x: &[f32; 3]| x[0].is_finite() && x[0].abs() <= 1.0e4 && x[1].is_finite() && x[1].abs() <= 1.0e3 && dom::moderate(x[2]);
+    let st = |x: &[f32; 3]| x[0].is_finite() && x[0].abs() <= 1.0e4 && x[1].is_finite() && x[1].abs() <= 1.0e3 && x[2].is_finite() && x[2].abs() <= 1.0e4;
     let lim = |x: f32| x.is_finite() && (1.0e-2..=1.0e3).contains(&x.abs());
     st(&p.start) && st(&p.end) && lim(p.max_vel) && lim(p.max_acc) && s.fracs.iter().all(|f| (0.0..1.0).contains(f)) && s.extra.len() <= 8
 }
